@@ -23,7 +23,8 @@ type Call struct {
 	Num    uint64 // block number (when Tag == "")
 	From   uint64 // FilterLogs range
 	To     uint64
-	Seq    int // ordinal of this call among calls of the same Method
+	Seq    int         // ordinal of this call among calls of the same Method
+	Tx     common.Hash // debug_traceTransaction: the transaction
 }
 
 type Chain struct {
@@ -154,11 +155,21 @@ func (c *Chain) SetTrace(tx common.Hash, callFrame any) {
 	c.mu.Unlock()
 }
 
+// SetTraceLocked is SetTrace for callers that hold the chain's lock (the RPC hook).
+func (c *Chain) SetTraceLocked(tx common.Hash, callFrame any) {
+	b, err := json.Marshal(callFrame)
+	if err != nil {
+		panic(err)
+	}
+	c.traces[tx] = b
+}
+
 // ---- inspection ----
 
 func (c *Chain) TipLocked() uint64       { return uint64(len(c.headers) - 1) }
 func (c *Chain) LatestLocked() uint64    { return c.latest }
 func (c *Chain) FinalizedLocked() uint64 { return c.finalized }
+func (c *Chain) SafeLocked() uint64      { return c.safe }
 func (c *Chain) Tip() uint64             { c.mu.Lock(); defer c.mu.Unlock(); return uint64(len(c.headers) - 1) }
 func (c *Chain) Latest() uint64          { c.mu.Lock(); defer c.mu.Unlock(); return c.latest }
 func (c *Chain) Finalized() uint64       { c.mu.Lock(); defer c.mu.Unlock(); return c.finalized }
@@ -375,7 +386,13 @@ func (c *Chain) CodeAt(ctx context.Context, contract common.Address, blockNumber
 func (c *Chain) Call(result any, method string, args ...any) error {
 	c.mu.Lock()
 	defer c.mu.Unlock()
-	if err := c.enter(Call{Method: method}); err != nil {
+	call := Call{Method: method}
+	if len(args) > 0 {
+		if h, ok := args[0].(common.Hash); ok {
+			call.Tx = h
+		}
+	}
+	if err := c.enter(call); err != nil {
 		return err
 	}
 	if method != "debug_traceTransaction" || len(args) == 0 {
